@@ -245,9 +245,9 @@ theorem compile_ren (ρ : Comp → Comp) (r : RuleSpec) (hr : ruleWF r = true) :
   simp only at hs ho
   cases anything
   · simp only [compile, renRule, RuleState.mapId, RuleConfig.mapId, Option.map_some, compileFilters_ren ρ _ hs,
-      Bool.false_eq_true, if_false, compileFilters_ren ρ _ (ho rfl)]
+      Bool.false_eq_true, if_false, compileFilters_ren ρ _ (ho rfl), List.map_nil]
   · simp only [compile, renRule, RuleState.mapId, RuleConfig.mapId, Option.map_some, compileFilters_ren ρ _ hs,
-      if_true, Option.map_none]
+      if_true, Option.map_none, List.map_nil]
 
 theorem compile_noRegex (r : RuleSpec) : cfgNoRegex (compile r).cfg := by
   constructor
